@@ -363,12 +363,22 @@ def _check_status_loop(run, repo, world):
     cfg = CFG(fn, may_raise=explicit_raise_only, name="BitmapResponse.status")
     loops = [n for n in cfg.reachable if n.kind == "for"]
     K = CMD + "BitmapResponse.status"
-    if len(loops) != 1 or unparse(loops[0].ast.iter) != "self.bits":
-        run.ob("R-STATUS-LOOP", K + "#loop", False,
-               "expected one loop over self.bits", where(mod, fn))
-        return
+    if len(loops) != 1:
+        raise AnalysisError("BitmapResponse.status: expected exactly one "
+                            "loop over the bit names (found %d); the form "
+                            "is not one the rule can read" % len(loops))
     loop = loops[0]
-    b = unparse(loop.ast.target)
+    it = unparse(loop.ast.iter)
+    idx = None
+    if it == "self.bits" and isinstance(loop.ast.target, ast.Name):
+        b = loop.ast.target.id
+    elif it == "enumerate(self.bits)" and isinstance(
+            loop.ast.target, ast.Tuple) and len(loop.ast.target.elts) == 2:
+        idx, b = [unparse(x) for x in loop.ast.target.elts]
+    else:
+        raise AnalysisError("BitmapResponse.status: loop `for %s in %s` is "
+                            "not a walk over self.bits the rule can read"
+                            % (unparse(loop.ast.target), it))
     # the working variable: shifted in the loop
     shift_nodes = []
     for n in cfg.reachable:
@@ -383,43 +393,90 @@ def _check_status_loop(run, repo, world):
             if isinstance(a, ast.AugAssign) and isinstance(
                     a.op, ast.RShift) and unparse(a.value) == "1":
                 shift_nodes.append((n, unparse(a.target)))
-    ok_shift = False
-    v = None
-    if len(shift_nodes) == 1:
-        sn, v = shift_nodes[0]
-        # every path loop-head(loop edge) -> loop-head passes the shift
-        ok_shift = _all_cycles_pass(loop, sn)
-    run.ob("R-STATUS-LOOP", K + "#shift-every-iteration", ok_shift,
-           "the working value must be shifted right by one on every "
-           "iteration (also for unnamed bits)", where(mod, fn))
-    # append guard
-    ok_app = False
+            if isinstance(a, ast.Assign) and isinstance(
+                    a.value, ast.BinOp) and isinstance(
+                        a.value.op, ast.FloorDiv) and unparse(
+                            a.value.right) == "2" and unparse(
+                                a.targets[0]) == unparse(a.value.left):
+                shift_nodes.append((n, unparse(a.targets[0])))
+    # candidate working variables: names assigned from the answer
+    inits = {}
     for n in cfg.reachable:
-        if n.kind == "stmt" and any(
-                isinstance(c2, ast.Call) and isinstance(
-                    c2.func, ast.Attribute) and c2.func.attr == "append"
-                and unparse(c2.args[0]) == b
-                for c2 in _walk_no_nested(n.ast)):
-            # guards: `v & 1` truthy and `b` truthy dominate
-            conds = _dominating_true_tests(cfg, n)
-            low = any(t in ("%s & 1" % v, "%s & 1 == 1" % v,
-                            "%s %% 2" % v, "%s & 1 != 0" % v)
-                      for t in conds)
-            ok_app = low and b in conds
-    run.ob("R-STATUS-LOOP", K + "#append-guard", ok_app,
-           "a name must be appended exactly when the low bit of the working "
-           "value is set and the bit is named", where(mod, fn))
-    # initial value: all 8 bits of the frame
-    init = None
-    for n in cfg.reachable:
-        if n.kind == "stmt" and isinstance(n.ast, ast.Assign) and unparse(
-                n.ast.targets[0]) == v and n not in [s[0] for s in
-                                                     shift_nodes]:
-            init = unparse(n.ast.value)
-    run.ob("R-STATUS-LOOP", K + "#initial", init in (
-        "self._value[7:0]", "self._value[0:7]", "self._value.as_integer"),
-        "working value starts as %s, expected the full 8-bit answer" % init,
-        where(mod, fn))
+        if n.kind == "stmt" and isinstance(n.ast, ast.Assign) and isinstance(
+                n.ast.targets[0], ast.Name) and unparse(n.ast.value) in (
+                    "self._value[7:0]", "self._value[0:7]",
+                    "self._value.as_integer"):
+            inits[n.ast.targets[0].id] = unparse(n.ast.value)
+
+    def low_tests(v):
+        return ("%s & 1" % v, "%s & 1 == 1" % v, "%s %% 2" % v,
+                "%s & 1 != 0" % v, "%s & 1 == 1" % v, "%s %% 2 == 1" % v)
+
+    def idx_tests(v):
+        return ("%s & 1 << %s" % (v, idx), "%s >> %s & 1" % (v, idx),
+                "%s & 1 << %s != 0" % (v, idx), "self._value[%s]" % idx,
+                "%s >> %s & 1 == 1" % (v, idx))
+    appends = [n for n in cfg.reachable if n.kind == "stmt" and any(
+        isinstance(c2, ast.Call) and isinstance(c2.func, ast.Attribute)
+        and c2.func.attr == "append" and unparse(c2.args[0]) == b
+        for c2 in _walk_no_nested(n.ast))]
+    if len(appends) != 1:
+        raise AnalysisError("BitmapResponse.status: expected one append of "
+                            "the bit name inside the loop")
+    conds = _dominating_true_tests(cfg, appends[0])
+    if idx is None:
+        # form A: shift-and-test-low-bit
+        ok_shift = False
+        v = None
+        if len(shift_nodes) == 1:
+            sn, v = shift_nodes[0]
+            ok_shift = _all_cycles_pass(loop, sn)
+        run.ob("R-STATUS-LOOP", K + "#shift-every-iteration", ok_shift,
+               "the working value must be shifted right by one exactly once "
+               "on every iteration (also for unnamed bits)", where(mod, fn))
+        low = v is not None and any(t in conds for t in low_tests(v))
+        run.ob("R-STATUS-LOOP", K + "#append-guard", low and b in conds,
+               "a name must be appended exactly when the low bit of the "
+               "working value is set and the bit is named (dominating "
+               "tests: %s)" % sorted(conds), where(mod, fn))
+        # within one iteration the test must come before the shift:
+        # iteration k tests bit k of the answer
+        early = False
+        if len(shift_nodes) == 1:
+            seen, stack = set(), [m for (l, m) in shift_nodes[0][0].succ
+                                  if l != "exc"]
+            while stack:
+                n = stack.pop()
+                if n.id in seen or n is loop:
+                    continue
+                seen.add(n.id)
+                if n.kind == "test" and v is not None and unparse(
+                        n.ast) in low_tests(v):
+                    early = True
+                stack += [m for (l, m) in n.succ if l != "exc"]
+        run.ob("R-STATUS-LOOP", K + "#test-before-shift", not early,
+               "the low-bit test is reachable after the shift within the "
+               "same iteration: iteration k then tests bit k+1 and bit 0 "
+               "is never reported", where(mod, fn))
+    else:
+        # form B: indexed test, no shifting
+        vs = list(inits) or ["v"]
+        hit = any(t in conds for v in vs for t in idx_tests(v))
+        run.ob("R-STATUS-LOOP", K + "#shift-every-iteration",
+               not shift_nodes, "indexed form must not also shift the "
+               "working value", where(mod, fn))
+        run.ob("R-STATUS-LOOP", K + "#append-guard", hit and b in conds,
+               "a name must be appended exactly when bit %s of the answer "
+               "is set and the bit is named (dominating tests: %s)"
+               % (idx, sorted(conds)), where(mod, fn))
+        run.ob("R-STATUS-LOOP", K + "#test-before-shift", True)
+        v = vs[0]
+    init = inits.get(v) if v else None
+    if idx is not None and any("self._value[%s]" % idx in c for c in conds):
+        init = "self._value[%s]" % idx
+    run.ob("R-STATUS-LOOP", K + "#initial", init is not None,
+           "working value starts as %s, expected the full 8-bit answer"
+           % init, where(mod, fn))
 
 
 def _all_cycles_pass(loop, node):
